@@ -212,6 +212,20 @@ class TaskBase(Instrumented, Task):
             if log:
                 _append(log, f"end {me} fail")
             sys.exit(3)
+        if self.mode in ("termdel", "intdel"):
+            # a termination signal whose Python-level handler runs inside a finalizer: an exception raised there
+            # (the runner's handler calls sys.exit) is reported as "ignored" by the interpreter and the body goes on
+            import signal as _signal
+
+            signum = _signal.SIGTERM if self.mode == "termdel" else _signal.SIGINT
+
+            class _Fin:
+                def __del__(s):
+                    os.kill(os.getpid(), signum)
+                    for _ in range(20000):
+                        pass
+
+            _Fin()
         if self.mode == "fork":
             pid = os.fork()
             if pid == 0:
